@@ -30,6 +30,10 @@ Theorem C06_chunk_walks_are_guarded : unreviewed_loops = [].
 Proof. exact chunk_walks_are_guarded. Qed.
 Print Assumptions C06_chunk_walks_are_guarded.
 
+Theorem C06_for_walks_are_guarded : unreviewed_for_loops = [].
+Proof. exact for_walks_are_guarded. Qed.
+Print Assumptions C06_for_walks_are_guarded.
+
 Theorem C06_tokenizer_loops_are_guarded : open_char_loops = [].
 Proof. exact tokenizer_loops_are_guarded. Qed.
 Print Assumptions C06_tokenizer_loops_are_guarded.
